@@ -281,14 +281,20 @@ func (o *oracleInv) price(m *Machine, a *Action, out Outcome) error {
 		admitted, why = false, "no open round for this validator and feeder"
 	case int(a.PNonce) != n+1:
 		admitted, why = false, "nonce not consecutive"
-	case a.Twice:
+	case a.Twice && a.N == 1 && int(a.PNonce)+1 > o.maxNonce:
+		admitted, why = false, "second message's nonce beyond the per-round limit"
+	case a.Twice && a.N != 1:
 		admitted, why = false, "second message repeats the nonce"
 	}
+	twoNonces := admitted && a.Twice && a.N == 1
 	if out.Admitted != admitted {
 		return violation("C13.I1.admission", "%s: admitted=%v, model says admitted=%v (%s); stored nonce %d; log: %s", a.String(), out.Admitted, admitted, why, n, truncate(out.Note, 160))
 	}
 	if admitted {
 		nmap[val][fid] = n + 1
+		if twoNonces {
+			nmap[val][fid] = n + 2
+		}
 	}
 	if a.Mode > 0 {
 		// CheckTx / ReCheckTx never touch the deliver state
@@ -349,6 +355,11 @@ func (o *oracleInv) price(m *Machine, a *Action, out Outcome) error {
 				}
 			}
 		}
+	}
+	if twoNonces && countedWant {
+		// the second message repeats the first one's source rounds: it carries nothing new, fails,
+		// and the transaction with it; nothing of the first message may stay either
+		countedWant, whyNot = false, "the transaction's second message carries nothing new, the transaction fails as a whole"
 	}
 	if out.OK != countedWant {
 		return violation("C13.I2.counting", "%s at height %d time %s: counted=%v, model says %v (%s); log: %s", a.String(), m.C.Height, m.C.Time.UTC().Format("15:04:05"), out.OK, countedWant, whyNot, truncate(out.Note, 160))
